@@ -82,11 +82,15 @@ def grid_kwargs(settings):
 
 
 def data_array(values, dims, name=None, layout="C"):
-    """layout: 'C' (contiguous), 'F' (Fortran order) or 'view' (a transposed, non-contiguous view of an array stored
-    in reversed dimension order) - the values and dims are the same in all three."""
+    """layout: 'C' (contiguous), 'F' (Fortran order), 'view' (a transposed, non-contiguous view of an array stored
+    in reversed dimension order) or 'neg' (negative strides) - the values and dims are the same in all of them."""
     a = np.asarray(values, dtype=np.float64)
     if layout == "F":
         a = np.asfortranarray(a)
     elif layout == "view" and a.ndim >= 2:
         a = np.ascontiguousarray(a.transpose()).transpose()
+    elif layout == "neg":
+        # stored back to front along every dimension and viewed through negative strides
+        rev = tuple(slice(None, None, -1) for _ in range(a.ndim))
+        a = np.ascontiguousarray(a[rev])[rev]
     return xr.DataArray(a, dims=list(dims), name=name)
